@@ -1,6 +1,6 @@
 (* Proofs/C03.v -- replies go back to the asker, from the identity that was
    asked (monitor ok_C03 of Spec/C03.v), proved against reply_spec. *)
-From MS Require Import Proofs.Tactics Proofs.DecLemmas Proofs.Pipeline Proofs.Factor Proofs.ViewLemmas
+From MS Require Import Proofs.Tactics Proofs.Pending Proofs.DecLemmas Proofs.Pipeline Proofs.Factor Proofs.ViewLemmas
      Proofs.C06 Proofs.Auth Proofs.DecLemmas2 Proofs.C05 Proofs.C02
      L2 Spec.View Spec.RefDec Spec.C03 Spec.EnvOk.
 
@@ -415,14 +415,102 @@ Proof.
   intros H. inversion H; subst. apply ports_spec_none.
 Qed.
 
-Lemma proto_repl_tcp_ports E clk ci tc data ci' tc' out :
-  env_ok E = true -> bytes_ok data = true ->
-  proto_repl_tcp E clk ci tc data = Ok (ci', tc', out) -> ports_spec ci ci' data out.
+(* the reading that does not look at the request: the source port is kept, and the
+   destination port is kept or moves to the next port under a STUN success response *)
+Definition ports_weak (ci ci' : cinfo) (out : option bytes) : Prop :=
+  ci_port_src ci' = ci_port_src ci /\
+  (ci_port_dst ci' = ci_port_dst ci \/
+   exists d, out = Some d /\ is_stun_success d = true /\
+             ci_port_dst ci' = option_map (fun p => wrap16 (p + 1)) (ci_port_dst ci)).
+
+Lemma ports_weak_refl ci out : ports_weak ci ci out.
+Proof. split; [reflexivity|left; reflexivity]. Qed.
+
+Lemma stun_ports_weak ci data ci' out : stun_repl ci data = (ci', out) -> ports_weak ci ci' out.
+Proof.
+  unfold stun_repl.
+  destruct (length data <? 20)%nat; [intros H; inversion H; apply ports_weak_refl|].
+  destruct (64 <=? u8_at 0 data); [intros H; inversion H; apply ports_weak_refl|].
+  destruct (lenN data <? 20 + u16_at 2 data); [intros H; inversion H; apply ports_weak_refl|].
+  destruct (stun_attrs _ _ false) as [chg|]; [|intros H; inversion H; apply ports_weak_refl].
+  destruct (negb _); [intros H; inversion H; apply ports_weak_refl|].
+  destruct (negb _); [intros H; inversion H; apply ports_weak_refl|].
+  destruct (ci_ip_src ci) as [src|]; [|intros H; inversion H; apply ports_weak_refl].
+  destruct (ci_port_src ci) as [sport|] eqn:Hsp; [|intros H; inversion H; apply ports_weak_refl].
+  destruct (ci_port_dst ci) as [dport|] eqn:Hdp; [|intros H; inversion H; apply ports_weak_refl].
+  intros H. apply pair_equal_spec in H. destruct H as [<- <-].
+  destruct chg; [|apply ports_weak_refl].
+  split; [cbn [ci_port_src ci_set_port_dst]; reflexivity|]. right.
+  eexists. split; [reflexivity|]. split; [apply stun_response_success|].
+  rewrite Hdp. cbn [ci_port_dst ci_set_port_dst option_map]. reflexivity.
+Qed.
+
+Lemma dispatch_ports_weak E clk ci id t data ci' t' out :
+  dispatch E clk ci id t data = Ok (ci', t', out) -> ports_weak ci ci' out.
+Proof.
+  unfold dispatch.
+  destruct (id =? PROTO_HTTP).
+  { destruct t as [tc|].
+    - destruct (match t_pstate tc with None => _ | Some _ => _ end) as [h|s]; [|discriminate].
+      destruct (http_repl _ _ _ _ h data) as [[h' o]|s]; cbn [bind]; [|discriminate].
+      intros H. inversion H; subst. apply ports_weak_refl.
+    - destruct (http_repl _ _ _ _ http_new data) as [[h' o]|s]; cbn [bind]; [|discriminate].
+      intros H. inversion H; subst. apply ports_weak_refl. }
+  destruct (id =? PROTO_STUN).
+  { destruct (stun_repl ci data) as [ci2 o] eqn:Hst. intros H. inversion H; subst.
+    eapply stun_ports_weak; eassumption. }
+  destruct (id =? PROTO_SSH); [intros H; inversion H; subst; apply ports_weak_refl|].
+  destruct (id =? PROTO_GHOST); [intros H; inversion H; subst; apply ports_weak_refl|].
+  destruct (id =? PROTO_RPC_TCP).
+  { destruct (ci_ip_dst ci) as [ip|]; [|intros H; inversion H; apply ports_weak_refl].
+    destruct (ci_port_dst ci) as [port|]; [|intros H; inversion H; apply ports_weak_refl].
+    destruct t as [tc|].
+    - destruct (match t_pstate tc with None => _ | Some _ => _ end) as [r0|s]; [|discriminate].
+      destruct (rpc_repl_tcp r0 ip port data) as [r' o].
+      intros H. inversion H; subst. apply ports_weak_refl.
+    - intros H. inversion H; subst. apply ports_weak_refl. }
+  destruct (id =? PROTO_RPC_UDP).
+  { destruct (ci_ip_dst ci) as [ip|]; [|intros H; inversion H; apply ports_weak_refl].
+    destruct (ci_port_dst ci) as [port|]; intros H; inversion H; apply ports_weak_refl. }
+  destruct (id =? PROTO_SMB1).
+  { destruct (smb1_repl _ _ _ data) as [o|s]; cbn [bind]; [|discriminate].
+    intros H. inversion H; subst. apply ports_weak_refl. }
+  destruct (id =? PROTO_SMB2).
+  { destruct (smb2_repl _ _ _ data) as [o|s]; cbn [bind]; [|discriminate].
+    intros H. inversion H; subst. apply ports_weak_refl. }
+  intros H. inversion H; subst. apply ports_weak_refl.
+Qed.
+
+(* TCP: the handler is given [snd (tcp_identify E tc data)]: the segment, preceded by the
+   bytes the flow has pending when this segment completes a signature *)
+Lemma proto_repl_tcp_ports_joined E clk ci tc data ci' tc' out :
+  env_ok E = true -> bytes_ok (snd (tcp_identify E tc data)) = true ->
+  proto_repl_tcp E clk ci tc data = Ok (ci', tc', out) ->
+  ports_spec ci ci' (snd (tcp_identify E tc data)) out.
 Proof.
   intros HE Hok. unfold proto_repl_tcp.
-  match goal with |- context [dispatch E clk ci ?i ?t data] =>
-    destruct (dispatch E clk ci i t data) as [[[c2 t2] o]|s] eqn:Hd end; cbn [bind]; [|discriminate].
+  destruct (tcp_identify E tc data) as [tc1 data1]. cbn [snd] in *.
+  destruct (dispatch E clk ci (t_proto tc1) (Some tc1) data1) as [[[c2 t2] o]|s] eqn:Hd; cbn [bind]; [|discriminate].
   intros H. inversion H; subst. eapply dispatch_ports; eassumption.
+Qed.
+
+(* a flow without pending bytes: the segment alone *)
+Lemma proto_repl_tcp_ports E clk ci tc data ci' tc' out :
+  env_ok E = true -> bytes_ok data = true -> t_pending tc = [] ->
+  proto_repl_tcp E clk ci tc data = Ok (ci', tc', out) -> ports_spec ci ci' data out.
+Proof.
+  intros HE Hok Hp H. rewrite <- (tcp_identify_data_empty E tc data Hp).
+  apply (proto_repl_tcp_ports_joined E clk ci tc data ci' tc' out HE); [|exact H].
+  rewrite (tcp_identify_data_empty E tc data Hp). exact Hok.
+Qed.
+
+(* any flow *)
+Lemma proto_repl_tcp_ports_weak E clk ci tc data ci' tc' out :
+  proto_repl_tcp E clk ci tc data = Ok (ci', tc', out) -> ports_weak ci ci' out.
+Proof.
+  unfold proto_repl_tcp. destruct (tcp_identify E tc data) as [tc1 data1].
+  destruct (dispatch E clk ci (t_proto tc1) (Some tc1) data1) as [[[c2 t2] o]|s] eqn:Hd; cbn [bind]; [|discriminate].
+  intros H. inversion H; subst. eapply dispatch_ports_weak; eassumption.
 Qed.
 
 Lemma proto_repl_udp_ports E clk ci data ci' out :
@@ -448,21 +536,28 @@ Qed.
 Lemma no_payload_not_stun : is_stun_success [] = false.
 Proof. reflexivity. Qed.
 
+(* no flow of the table has bytes pending (flows that are identified, or whose first data
+   segment is still to come) *)
+Definition tbl_no_pending (tb : table) : Prop :=
+  forall k tc, tbl_find k tb = Some tc -> t_pending tc = [].
+
 Lemma tcp_repl_ports E cfg clk tb ci0 p tb' ci' r evs :
-  env_ok E = true -> bytes_ok p = true ->
+  env_ok E = true -> bytes_ok p = true -> tbl_no_pending tb ->
   tcp_repl E cfg clk tb ci0 p = Ok (tb', ci', Some r, evs) ->
   exists sp seq ack fl pl,
     r = tcp_header sp (u16_at 0 p) seq ack fl ++ pl /\ fl < 512 /\
     sp = (if stun_change_port (tcp_payload p) && is_stun_success pl
           then wrap16 (u16_at 2 p + 1) else u16_at 2 p).
 Proof.
-  intros HE Hok. unfold tcp_repl.
+  intros HE Hok Hnp. unfold tcp_repl.
   destruct (tcp_class (tcp_flags p)).
   - (* TData *)
     destruct (cookie_ci _ _ _) as [ck|]; [|discriminate].
     match goal with |- context [if ?c then _ else _] => destruct c end; [discriminate|].
+    assert (Hpe : t_pending (match tbl_find ck tb with Some t => t | None => tcb_new end) = []).
+    { destruct (tbl_find ck tb) as [t|] eqn:Hf; [exact (Hnp ck t Hf)|reflexivity]. }
     destruct (proto_repl_tcp _ _ _ _ _) as [[[ci2 tc'] out]|s] eqn:Hpr; cbn [bind]; [|discriminate].
-    pose proof (proto_repl_tcp_ports _ _ _ _ _ _ _ _ HE (tcp_payload_ok _ Hok) Hpr) as [Hsrc Hdst].
+    pose proof (proto_repl_tcp_ports _ _ _ _ _ _ _ _ HE (tcp_payload_ok _ Hok) Hpe Hpr) as [Hsrc Hdst].
     cbn [ci_port_src ci_port_dst ci_set_cookie ci_set_ports option_map] in Hsrc, Hdst.
     rewrite Hsrc, Hdst.
     destruct out as [d|].
@@ -481,6 +576,37 @@ Proof.
     cbn [ci_port_src ci_port_dst ci_set_ports]. intros H; inversion H; subst.
     eexists _, _, _, _, []. split; [reflexivity|]. split; [unfold SYN, ACK; lia|].
     rewrite no_payload_not_stun, andb_false_r. reflexivity.
+  - discriminate.
+Qed.
+
+(* any table: the reading that does not look at the request *)
+Lemma tcp_repl_ports_weak E cfg clk tb ci0 p tb' ci' r evs :
+  tcp_repl E cfg clk tb ci0 p = Ok (tb', ci', Some r, evs) ->
+  exists sp seq ack fl pl,
+    r = tcp_header sp (u16_at 0 p) seq ack fl ++ pl /\ fl < 512 /\
+    (sp = u16_at 2 p \/ (is_stun_success pl = true /\ sp = wrap16 (u16_at 2 p + 1))).
+Proof.
+  unfold tcp_repl.
+  destruct (tcp_class (tcp_flags p)).
+  - (* TData *)
+    destruct (cookie_ci _ _ _) as [ck|]; [|discriminate].
+    match goal with |- context [if ?c then _ else _] => destruct c end; [discriminate|].
+    destruct (proto_repl_tcp _ _ _ _ _) as [[[ci2 tc'] out]|s] eqn:Hpr; cbn [bind]; [|discriminate].
+    pose proof (proto_repl_tcp_ports_weak _ _ _ _ _ _ _ _ Hpr) as [Hsrc Hdst].
+    cbn [ci_port_src ci_port_dst ci_set_cookie ci_set_ports option_map] in Hsrc, Hdst.
+    rewrite Hsrc.
+    destruct Hdst as [Hdst | (d & -> & Hst & Hdst)]; rewrite Hdst.
+    + destruct out as [d|]; intros H; inversion H; subst; eexists _, _, _, _, _;
+        (split; [reflexivity|]); (split; [unfold ACK, PSH; lia|]); left; reflexivity.
+    + intros H; inversion H; subst. eexists _, _, _, _, d.
+      split; [reflexivity|]. split; [unfold ACK, PSH; lia|]. right. split; [exact Hst|reflexivity].
+  - discriminate.
+  - discriminate.
+  - cbn [ci_port_src ci_port_dst ci_set_ports]. intros H; inversion H; subst.
+    eexists _, _, _, _, []. split; [reflexivity|]. split; [unfold FIN, ACK; lia|]. left. reflexivity.
+  - destruct (cookie_ci _ _ _) as [ck|]; [|discriminate].
+    cbn [ci_port_src ci_port_dst ci_set_ports]. intros H; inversion H; subst.
+    eexists _, _, _, _, []. split; [reflexivity|]. split; [unfold SYN, ACK; lia|]. left. reflexivity.
   - discriminate.
 Qed.
 
@@ -503,7 +629,7 @@ Proof.
 Qed.
 
 (* ================= part 3: the frame-level statement ================= *)
-Lemma mirror_wrap cfg f v rsrc hlim l4 :
+Lemma mirror_wrap (strict : bool) cfg f v rsrc hlim l4 :
   cfg_ok cfg = true -> bytes_ok f = true -> view cfg f = Some v -> hlim < 256 ->
   length rsrc = (if v_v4 v then 4 else 16)%nat ->
   (if negb (v_v4 v) && (v_proto v =? 58) && (u8_at 0 (v_l4 v) =? 135)
@@ -511,8 +637,12 @@ Lemma mirror_wrap cfg f v rsrc hlim l4 :
    else bytes_eqb rsrc (v_dst v)) = true ->
   (if v_proto v =? 6 then
      match dec_tcp l4 with
-     | Some t => ports_ok (u16_at 0 (v_l4 v)) (u16_at 2 (v_l4 v)) (tcp_payload (v_l4 v))
-                          (dt_sport t) (dt_dport t) (dt_payload t)
+     | Some t =>
+       if strict
+       then ports_ok (u16_at 0 (v_l4 v)) (u16_at 2 (v_l4 v)) (tcp_payload (v_l4 v))
+                     (dt_sport t) (dt_dport t) (dt_payload t)
+       else ports_ok_tcp (u16_at 0 (v_l4 v)) (u16_at 2 (v_l4 v))
+                         (dt_sport t) (dt_dport t) (dt_payload t)
      | None => false
      end
    else if v_proto v =? 17 then
@@ -522,13 +652,13 @@ Lemma mirror_wrap cfg f v rsrc hlim l4 :
      | None => false
      end
    else true) = true ->
-  ok_C03 cfg f (Some (wrap_ip cfg f v rsrc hlim l4)) = true.
+  ok_C03_gen strict cfg f (Some (wrap_ip cfg f v rsrc hlim l4)) = true.
 Proof.
   intros Hcfg Hf Hv Hh Hr Hsrcc Hports.
   pose proof (view_proto_lt _ _ _ Hf Hv) as Hp.
   destruct (dec_wrap_ip cfg f v rsrc hlim l4 Hcfg Hv Hp Hh Hr)
     as (e & i & He & Hi & Hdst & Hsrc & Hty & Hv4 & Hisrc & Hidst & Hpr & Hpl).
-  unfold ok_C03. rewrite He, Hsrc, Hdst, Hty, (view_ety _ _ _ Hv), Hi, Hv.
+  unfold ok_C03_gen. rewrite He, Hsrc, Hdst, Hty, (view_ety _ _ _ Hv), Hi, Hv.
   change (firstn 6 (skipn 6 f)) with (slice 6 6 f).
   rewrite !bytes_eqb_refl, N.eqb_refl.
   assert (((if v_v4 v then 2048 else 34525) =? 2054) = false) as -> by (destruct (v_v4 v); reflexivity).
@@ -545,32 +675,44 @@ Proof.
   intros [-> | ->]; cbn [negb andb]; rewrite ?andb_false_r; apply bytes_eqb_refl.
 Qed.
 
-Lemma mirror_tcp E cfg clk tb f v tb' ci' r evs :
+Lemma mirror_tcp (strict : bool) E cfg clk tb f v tb' ci' r evs :
   cfg_ok cfg = true -> env_ok E = true -> bytes_ok f = true ->
+  (strict = true -> tbl_no_pending tb) ->
   view cfg f = Some v -> v_proto v = 6 ->
   tcp_repl E cfg clk tb (l3_ci f v) (v_l4 v) = Ok (tb', ci', Some r, evs) ->
-  ok_C03 cfg f (Some (wrap_ip cfg f v (v_dst v) 64 (seal_tcp v r))) = true.
+  ok_C03_gen strict cfg f (Some (wrap_ip cfg f v (v_dst v) 64 (seal_tcp v r))) = true.
 Proof.
-  intros Hcfg HE Hf Hv Hp Ht.
+  intros Hcfg HE Hf Hnp Hv Hp Ht.
   pose proof (view_l4_ok _ _ _ Hf Hv) as Hok.
-  destruct (tcp_repl_ports _ _ _ _ _ _ _ _ _ _ HE Hok Ht) as (sp & sq & ak & fl & pl & -> & Hfl & Hsp).
-  apply mirror_wrap; try assumption; [lia|apply (view_dst_len _ _ _ Hv)| |].
-  - apply src_clause_plain. right. rewrite Hp. reflexivity.
-  - rewrite Hp. change (6 =? 6) with true. cbv iota.
-    unfold seal_tcp. rewrite dec_tcp_segment by exact Hfl.
-    cbn [dt_sport dt_dport dt_payload]. unfold ports_ok.
-    pose proof (u16_at_lt 0 _ Hok) as B0. pose proof (u16_at_lt 2 _ Hok) as B2.
-    rewrite (N.mod_small (u16_at 0 (v_l4 v))) by exact B0. rewrite N.eqb_refl. cbn [andb].
-    subst sp. destruct (stun_change_port (tcp_payload (v_l4 v)) && is_stun_success pl).
-    + unfold wrap16. rewrite N.mod_mod by lia. apply N.eqb_refl.
-    + rewrite N.mod_small by exact B2. apply N.eqb_refl.
+  pose proof (u16_at_lt 0 _ Hok) as B0. pose proof (u16_at_lt 2 _ Hok) as B2.
+  destruct strict.
+  - destruct (tcp_repl_ports _ _ _ _ _ _ _ _ _ _ HE Hok (Hnp eq_refl) Ht) as (sp & sq & ak & fl & pl & -> & Hfl & Hsp).
+    apply mirror_wrap; try assumption; [lia|apply (view_dst_len _ _ _ Hv)| |].
+    + apply src_clause_plain. right. rewrite Hp. reflexivity.
+    + rewrite Hp. change (6 =? 6) with true. cbv iota.
+      unfold seal_tcp. rewrite dec_tcp_segment by exact Hfl.
+      cbn [dt_sport dt_dport dt_payload]. unfold ports_ok.
+      rewrite (N.mod_small (u16_at 0 (v_l4 v))) by exact B0. rewrite N.eqb_refl. cbn [andb].
+      subst sp. destruct (stun_change_port (tcp_payload (v_l4 v)) && is_stun_success pl).
+      * unfold wrap16. rewrite N.mod_mod by lia. apply N.eqb_refl.
+      * rewrite N.mod_small by exact B2. apply N.eqb_refl.
+  - destruct (tcp_repl_ports_weak _ _ _ _ _ _ _ _ _ _ Ht) as (sp & sq & ak & fl & pl & -> & Hfl & Hsp).
+    apply mirror_wrap; try assumption; [lia|apply (view_dst_len _ _ _ Hv)| |].
+    + apply src_clause_plain. right. rewrite Hp. reflexivity.
+    + rewrite Hp. change (6 =? 6) with true. cbv iota.
+      unfold seal_tcp. rewrite dec_tcp_segment by exact Hfl.
+      cbn [dt_sport dt_dport dt_payload]. unfold ports_ok_tcp.
+      rewrite (N.mod_small (u16_at 0 (v_l4 v))) by exact B0. rewrite N.eqb_refl. cbn [andb].
+      destruct Hsp as [-> | [Hst ->]].
+      * rewrite N.mod_small by exact B2. rewrite N.eqb_refl. reflexivity.
+      * rewrite Hst. unfold wrap16. rewrite N.mod_mod by lia. rewrite N.eqb_refl. apply orb_true_r.
 Qed.
 
-Lemma mirror_udp E cfg clk f v ci' r evs :
+Lemma mirror_udp (strict : bool) E cfg clk f v ci' r evs :
   cfg_ok cfg = true -> env_ok E = true -> bytes_ok f = true ->
   view cfg f = Some v -> v_proto v = 17 ->
   udp_repl E cfg clk (l3_ci f v) (v_l4 v) = Ok (ci', Some r, evs) ->
-  ok_C03 cfg f (Some (wrap_ip cfg f v (v_dst v) 64 (seal_udp v r))) = true.
+  ok_C03_gen strict cfg f (Some (wrap_ip cfg f v (v_dst v) 64 (seal_udp v r))) = true.
 Proof.
   intros Hcfg HE Hf Hv Hp Ht.
   pose proof (view_l4_ok _ _ _ Hf Hv) as Hok.
@@ -587,12 +729,16 @@ Proof.
     + rewrite N.mod_small by exact B2. apply N.eqb_refl.
 Qed.
 
-Lemma ports_clause_none v l4 :
+Lemma ports_clause_none (strict : bool) v l4 :
   (v_proto v =? 6) = false -> (v_proto v =? 17) = false ->
   (if v_proto v =? 6 then
      match dec_tcp l4 with
-     | Some t => ports_ok (u16_at 0 (v_l4 v)) (u16_at 2 (v_l4 v)) (tcp_payload (v_l4 v))
-                          (dt_sport t) (dt_dport t) (dt_payload t)
+     | Some t =>
+       if strict
+       then ports_ok (u16_at 0 (v_l4 v)) (u16_at 2 (v_l4 v)) (tcp_payload (v_l4 v))
+                     (dt_sport t) (dt_dport t) (dt_payload t)
+       else ports_ok_tcp (u16_at 0 (v_l4 v)) (u16_at 2 (v_l4 v))
+                         (dt_sport t) (dt_dport t) (dt_payload t)
      | None => false
      end
    else if v_proto v =? 17 then
@@ -604,11 +750,12 @@ Lemma ports_clause_none v l4 :
    else true) = true.
 Proof. intros -> ->. reflexivity. Qed.
 
-Lemma mirror_l3 E cfg clk tb f v tb' rf :
-  cfg_ok cfg = true -> env_ok E = true -> bytes_ok f = true -> view cfg f = Some v ->
-  l3_reply E cfg clk tb f v = Ok (tb', Some rf) -> ok_C03 cfg f (Some rf) = true.
+Lemma mirror_l3 (strict : bool) E cfg clk tb f v tb' rf :
+  cfg_ok cfg = true -> env_ok E = true -> bytes_ok f = true ->
+  (strict = true -> tbl_no_pending tb) -> view cfg f = Some v ->
+  l3_reply E cfg clk tb f v = Ok (tb', Some rf) -> ok_C03_gen strict cfg f (Some rf) = true.
 Proof.
-  intros Hcfg HE Hf Hv.
+  intros Hcfg HE Hf Hnp Hv.
   pose proof (view_dst_len _ _ _ Hv) as Hdl.
   unfold l3_reply.
   destruct (v_v4 v) eqn:Hv4.
@@ -663,22 +810,23 @@ Proof.
     intros H. take_reply H. apply N.eqb_eq in P17. eapply mirror_udp; eassumption.
 Qed.
 
-Lemma mirror_arp cfg f x :
+Lemma mirror_arp (strict : bool) cfg f x :
   cfg_ok cfg = true -> (length f <? 14)%nat = false -> (u16_at 12 f =? 2054) = true ->
-  ok_C03 cfg f (Some (eth_frame (slice 6 6 f) (c_mac cfg) 2054 x)) = true.
+  ok_C03_gen strict cfg f (Some (eth_frame (slice 6 6 f) (c_mac cfg) 2054 x)) = true.
 Proof.
   intros Hcfg Hlen Ea. apply ltb_false_le in Hlen.
   assert (length (slice 6 6 f) = 6%nat) as Hsm by (apply slice_length; lia).
-  unfold ok_C03. rewrite dec_eth_frame by (try apply cfg_ok_mac; assumption || lia).
+  unfold ok_C03_gen. rewrite dec_eth_frame by (try apply cfg_ok_mac; assumption || lia).
   cbn [de_src de_dst de_type]. change (firstn 6 (skipn 6 f)) with (slice 6 6 f).
   rewrite !bytes_eqb_refl. apply N.eqb_eq in Ea. rewrite Ea. reflexivity.
 Qed.
 
-Theorem mirror E cfg clk tb f tb' r evs :
+Theorem mirror_gen (strict : bool) E cfg clk tb f tb' r evs :
   cfg_ok cfg = true -> env_ok E = true -> bytes_ok f = true ->
-  reply E cfg clk tb f = Ok (tb', r, evs) -> ok_C03 cfg f r = true.
+  (strict = true -> tbl_no_pending tb) ->
+  reply E cfg clk tb f = Ok (tb', r, evs) -> ok_C03_gen strict cfg f r = true.
 Proof.
-  intros Hcfg HE Hf Hr. destruct r as [rf|]; [|reflexivity].
+  intros Hcfg HE Hf Hnp Hr. destruct r as [rf|]; [|reflexivity].
   apply reply_factor_ok in Hr. unfold reply_spec in Hr.
   destruct (length f <? 14)%nat eqn:Hlen; [discriminate|].
   destruct (auth_mac cfg (slice 0 6 f)); cbn [negb] in Hr; [|discriminate].
@@ -688,4 +836,21 @@ Proof.
     take_reply Hr. apply mirror_arp; assumption.
   - destruct (view cfg f) as [v|] eqn:Hv; [|discriminate].
     eapply mirror_l3; eassumption.
+Qed.
+
+(* every table: TCP ports read without looking at the request *)
+Theorem mirror E cfg clk tb f tb' r evs :
+  cfg_ok cfg = true -> env_ok E = true -> bytes_ok f = true ->
+  reply E cfg clk tb f = Ok (tb', r, evs) -> ok_C03 cfg f r = true.
+Proof.
+  intros Hcfg HE Hf Hr. apply (mirror_gen false E cfg clk tb f tb' r evs Hcfg HE Hf); [discriminate|exact Hr].
+Qed.
+
+(* no flow has bytes pending: TCP ports read against the answered segment, as for UDP *)
+Theorem mirror_strict E cfg clk tb f tb' r evs :
+  cfg_ok cfg = true -> env_ok E = true -> bytes_ok f = true ->
+  (forall k tc, tbl_find k tb = Some tc -> t_pending tc = []) ->
+  reply E cfg clk tb f = Ok (tb', r, evs) -> ok_C03_strict cfg f r = true.
+Proof.
+  intros Hcfg HE Hf Hnp Hr. apply (mirror_gen true E cfg clk tb f tb' r evs Hcfg HE Hf); [intros _; exact Hnp|exact Hr].
 Qed.
